@@ -712,13 +712,17 @@ func (p *Parameters) ReadFrom(r io.Reader) (n int64, err error) {
 			return int64(n), fmt.Errorf("buffer.ReadAsUint64[int]: %w", err)
 		}
 
-		bytes := make([]byte, size)
-
-		var inc int
-		if inc, err = io.ReadFull(r, bytes); err != nil {
-			return n + int64(inc), fmt.Errorf("io.Reader.Read: %w", err)
+		// The announced size is not trusted: memory is only allocated for what is actually read
+		var bytes []byte
+		if bytes, err = io.ReadAll(io.LimitReader(r, int64(size))); err != nil {
+			return n + int64(len(bytes)), fmt.Errorf("io.Reader.Read: %w", err)
 		}
-		return n + int64(inc), p.UnmarshalJSON(bytes)
+
+		if len(bytes) != size {
+			return n + int64(len(bytes)), fmt.Errorf("io.Reader.Read: %w", io.ErrUnexpectedEOF)
+		}
+
+		return n + int64(len(bytes)), p.UnmarshalJSON(bytes)
 
 	default:
 		return p.ReadFrom(bufio.NewReader(r))
